@@ -387,7 +387,7 @@ fn reference_chunking_case(arm: u8) {
 }
 
 // @prop C09 C11
-// @tier quick
+// @tier experimental
 // @unit harness/src/spec/container.rs::spec_step (the reference semantics that every real parser step is proved equal to by the c10_step_* harnesses)
 // @sym any valid parser state, 12 buffer bytes, length 1..=12 (start state arm enumerated: one harness per arm), cut position 0..=length
 // @bound one buffer of <= 12 bytes cut once (header forms up to the 64-bit size need 16 bytes and are cut in the thorough harness on the real code)
@@ -400,7 +400,7 @@ pub fn c09_reference_chunking_commutes_waiting_signature() {
 }
 
 // @prop C09 C11
-// @tier quick
+// @tier experimental
 // @unit harness/src/spec/container.rs::spec_step (the reference semantics that every real parser step is proved equal to by the c10_step_* harnesses)
 // @sym any valid parser state, 12 buffer bytes, length 1..=12 (start state arm enumerated: one harness per arm), cut position 0..=length
 // @bound one buffer of <= 12 bytes cut once (header forms up to the 64-bit size need 16 bytes and are cut in the thorough harness on the real code)
@@ -413,7 +413,7 @@ pub fn c09_reference_chunking_commutes_waiting_box_header() {
 }
 
 // @prop C09 C11
-// @tier quick
+// @tier experimental
 // @unit harness/src/spec/container.rs::spec_step (the reference semantics that every real parser step is proved equal to by the c10_step_* harnesses)
 // @sym any valid parser state, 12 buffer bytes, length 1..=12 (start state arm enumerated: one harness per arm), cut position 0..=length
 // @bound one buffer of <= 12 bytes cut once (header forms up to the 64-bit size need 16 bytes and are cut in the thorough harness on the real code)
@@ -426,7 +426,7 @@ pub fn c09_reference_chunking_commutes_waiting_jxlp_index() {
 }
 
 // @prop C09 C11
-// @tier quick
+// @tier experimental
 // @unit harness/src/spec/container.rs::spec_step (the reference semantics that every real parser step is proved equal to by the c10_step_* harnesses)
 // @sym any valid parser state, 12 buffer bytes, length 1..=12 (start state arm enumerated: one harness per arm), cut position 0..=length
 // @bound one buffer of <= 12 bytes cut once (header forms up to the 64-bit size need 16 bytes and are cut in the thorough harness on the real code)
@@ -439,7 +439,7 @@ pub fn c09_reference_chunking_commutes_in_aux_box() {
 }
 
 // @prop C09 C11
-// @tier quick
+// @tier experimental
 // @unit harness/src/spec/container.rs::spec_step (the reference semantics that every real parser step is proved equal to by the c10_step_* harnesses)
 // @sym any valid parser state, 12 buffer bytes, length 1..=12 (start state arm enumerated: one harness per arm), cut position 0..=length
 // @bound one buffer of <= 12 bytes cut once (header forms up to the 64-bit size need 16 bytes and are cut in the thorough harness on the real code)
@@ -456,7 +456,7 @@ fn any_state_in_arm_sym(arm: u8) -> CState {
 }
 
 // @prop C09 C10 C11
-// @tier thorough
+// @tier experimental
 // @unit jxl_bitstream::container::{ContainerParser::{feed_bytes,previous_consumed_bytes},ParseEvents::next} from the data states InCodestream and InAuxBox
 // @sym parser state within the arm (byte counters any value, brob type), 12 buffer bytes, length 1..=12, cut position 0..=length
 // @bound one buffer of <= 12 bytes cut once; at most 4 events per feed call
@@ -474,7 +474,7 @@ pub fn c09_container_chunking_commutes_data_states() {
 }
 
 // @prop C09 C10 C11
-// @tier thorough
+// @tier experimental
 // @unit jxl_bitstream::container (as the data-state harness) from WaitingBoxHeader and WaitingJxlpIndex
 // @sym parser bookkeeping state, 12 buffer bytes holding a box header (32-bit size forms) and payload, cut anywhere incl. inside the header
 // @bound one buffer of <= 12 bytes cut once
